@@ -11,8 +11,8 @@ using llvm::json::Value;
 
 namespace {
 
-enum Tok { U, T, B, O, M };
-static const char* tokName(Tok t) { switch (t) { case U: return "U"; case T: return "T"; case B: return "B"; case O: return "O"; default: return "M"; } }
+enum Tok { U, T, B, O, M, D };   // D: dangling — borrowed from a handle that has since been released
+static const char* tokName(Tok t) { switch (t) { case U: return "U"; case T: return "T"; case B: return "B"; case O: return "O"; case D: return "D"; default: return "M"; } }
 
 enum Role { R_BORROW, R_CONSUME, R_OUT_OWNED, R_INOUT, R_OUT_BORROWED, R_IGNORE, R_OUT_TERMINAL, R_TERMINAL_IN, R_CONSUME_ZERO };
 enum Ret { RET_NONE, RET_OWNED, RET_BORROWED, RET_TERMINAL, RET_UNKNOWN };
@@ -92,6 +92,7 @@ struct State {
   std::map<const VarDecl*, int> flags;      // local bool -> 0/1
   std::map<const VarDecl*, int> nodeKind;   // unpacked_node* var -> 1 readable, 2 writable, 3 redundant-of
   std::map<const VarDecl*, int> nodeOrigin; // for kind 3: value id of the filled handle
+  std::map<int, int> from;                  // borrowed value id -> value id of the handle it was read from (getDownPtr / isSingletonNode)
   std::map<const VarDecl*, int> nodeLife;   // unpacked_node* local from a factory: 0 untracked, 1 live, 2 recycled/reduced
   std::string key() const {
     std::ostringstream os;
@@ -216,9 +217,12 @@ public:
     event(At);
     int v = valueOf(S, Arg);
     Tok t = S.tok[v];
+    if (t == D) { report("own.use-after-release", At, what + "(" + exprText(Arg) + ")", "handle `" + exprText(Arg) + "` was only borrowed from a node that has already been unlinked (it may have been reclaimed) and is given to " + what); return; }
     if (t == B) report("own.borrowed-escapes", At, what + "(" + exprText(Arg) + ")", "borrowed handle given to owning sink " + what + ": " + exprText(Arg));
     else if (t == M) { if (!underUniqueIndexGuard(At)) report("own.double-move", At, what + "(" + exprText(Arg) + ")", "already-moved handle given to owning sink " + what + ": " + exprText(Arg)); }
     else if (t == O) S.tok[v] = M;
+    // releasing a handle invalidates what was only borrowed from it (its child pointers)
+    if (what == "unlinkNode") for (auto &fr : S.from) if (fr.second == v && S.tok[fr.first] == B) S.tok[fr.first] = D;
   }
 
   std::string exprText(const Expr *E) { return msa::exprText(Ctx, E); }
@@ -242,6 +246,17 @@ public:
     const Expr *E = strip(E0);
     if (auto *DR = dyn_cast_or_null<DeclRefExpr>(E)) if (auto *VD = dyn_cast<VarDecl>(DR->getDecl())) if (isTracked(VD)) return VD;
     return nullptr;
+  }
+
+  // the handle whose child pointers a borrowing callee hands out: first by-value node_handle argument of getDownPtr / isSingletonNode
+  int ownerOf(State &S, const CallExpr *CE, const FunctionDecl *Callee) {
+    std::string n = Callee->getNameAsString();
+    if (n != "getDownPtr" && n != "isSingletonNode") return -1;
+    for (unsigned i = 0; i < CE->getNumArgs() && i < Callee->getNumParams(); i++) {
+      bool ref;
+      if (isNodeHandleType(Callee->getParamDecl(i)->getType(), ref) && !ref) return valueOf(S, CE->getArg(i));
+    }
+    return -1;
   }
 
   void handleCall(State &S, const CallExpr *CE) {
@@ -295,7 +310,10 @@ public:
       const Expr *A = CE->getArg(ai);
       if (isa<CXXDefaultArgExpr>(A)) continue;
       switch (p.second) {
-        case R_BORROW: case R_IGNORE: break;
+        case R_BORROW: case R_IGNORE: {
+          int bv = valueOf(S, A);
+          if (S.tok[bv] == D) { event(CE); report("own.use-after-release", CE, Callee->getNameAsString() + "(" + exprText(A) + ")", "handle `" + exprText(A) + "` was only borrowed from a node that has already been unlinked (the node and its children may have been reclaimed) and is now used by " + Callee->getNameAsString()); }
+          break; }
         case R_CONSUME: consume(S, A, CE, Callee->getNameAsString()); break;
         case R_INOUT: {
           int v = valueOf(S, A); Tok t = S.tok[v];
@@ -308,7 +326,7 @@ public:
           if (const VarDecl *VD = asTrackedVar(A)) overwriteVar(S, VD, S.fresh(O), CE);
           break; }
         case R_OUT_BORROWED: {
-          if (const VarDecl *VD = asTrackedVar(A)) overwriteVar(S, VD, S.fresh(B), CE);
+          if (const VarDecl *VD = asTrackedVar(A)) { int nv = S.fresh(B); overwriteVar(S, VD, nv, CE); int ow = ownerOf(S, CE, Callee); if (ow >= 0) S.from[nv] = ow; }
           break; }
         case R_OUT_TERMINAL: {
           if (const VarDecl *VD = asTrackedVar(A)) overwriteVar(S, VD, S.fresh(T), CE);
@@ -323,7 +341,7 @@ public:
     if (retIsHandle) {
       switch (Sum.ret) {
         case RET_OWNED: S.tmp[CE] = S.fresh(O); break;
-        case RET_BORROWED: S.tmp[CE] = S.fresh(B); break;
+        case RET_BORROWED: { int nv = S.fresh(B); S.tmp[CE] = nv; int ow = ownerOf(S, CE, Callee); if (ow >= 0) S.from[nv] = ow; break; }
         case RET_TERMINAL: S.tmp[CE] = S.fresh(T); break;
         default: S.tmp[CE] = S.fresh(U); unknownRet.insert(Callee->getQualifiedNameAsString()); break;
       }
@@ -418,6 +436,8 @@ public:
     const Expr *C = strip(C0);
     while (auto *UO = dyn_cast_or_null<UnaryOperator>(C)) { if (UO->getOpcode() != UO_LNot) break; truth = !truth; C = strip(UO->getSubExpr()); }
     if (!C) return true;
+    // the link/unlink discipline is analysed for forests that use reference counts (mark-and-sweep forests skip the counting)
+    if (auto *ME = dyn_cast<MemberExpr>(C)) if (ME->getMemberDecl()->getNameAsString() == "useReferenceCounts") return truth;
     auto setT = [&](const Expr *X) { if (const VarDecl *VD = asTrackedVar(X)) { auto it = N.var2val.find(VD); if (it != N.var2val.end()) { if (N.tok[it->second] != M) N.tok[it->second] = T; } else N.var2val[VD] = N.fresh(T); } };
     auto isZeroLit = [&](const Expr *X) { const Expr *Y = strip(X); if (auto *IL = dyn_cast_or_null<IntegerLiteral>(Y)) return IL->getValue() == 0; if (auto *DR = dyn_cast_or_null<DeclRefExpr>(Y)) { std::string n = DR->getDecl()->getNameAsString(); return n == "OMEGA_INFINITY" || n == "OMEGA_ZERO"; } return false; };
     auto isTermConst = [&](const Expr *X) { const Expr *Y = strip(X); if (isa<IntegerLiteral>(Y)) return true; if (auto *UO = dyn_cast<UnaryOperator>(Y)) if (UO->getOpcode() == UO_Minus) return true; if (auto *DR = dyn_cast_or_null<DeclRefExpr>(Y)) { std::string n = DR->getDecl()->getNameAsString(); return n.rfind("OMEGA_", 0) == 0; } return false; };
@@ -539,7 +559,7 @@ public:
 
 // slot-level primitives the summaries describe; their own bodies manipulate counts directly and are the trusted base
 bool isTrusted(const std::string &q) {
-  static const char *trusted[] = {"forest::linkNode", "forest::unlinkNode", "node_headers::linkNode", "node_headers::unlinkNode", "forest::redirectSingleton",
+  static const char *trusted[] = {"forest::linkNode", "forest::unlinkNode", "node_headers::linkNode", "node_headers::unlinkNode",
     "forest::createReducedNode", "forest::deleteNode", "forest::getDownPtr", "dd_edge::set", "dd_edge::set_and_link", "dd_edge::attach", "dd_edge::init", "dd_edge::xferNode",
     "forest::unlinkAllDown", "forest::linkAllDown", "forest::cacheNode", "forest::uncacheNode", "node_headers::cacheNode", "node_headers::uncacheNode", nullptr};
   for (int i = 0; trusted[i]; i++) if (endsWith(q, trusted[i])) return true;
